@@ -100,6 +100,24 @@ CLAIMED = {
              "against Getopt / CmdLine / Spawn.",
         ref="5/C20", technique="TLA+ refinement model checking (TLC) + exhaustive replay of argument vectors / command lines + TLC trace validation",
         note="Quoting rules undocumented in Process.hpp: only lines of the documented form are judged beyond termination; long-option abbreviations not tested."),
+    "C15": dict(
+        text="TLC checks JsonStrip.tla (comment stripper as a byte-at-a-time machine on ALL inputs of length <= 6/7 over {/,*,quote,"
+             "backslash,LF,a}), JsonSyntax.tla (value trees, round-trip property) and JsonLexImpl.tla (micro-step acceptor mirroring "
+             "the tokenizer/parser of Json.cpp: cursor inside the text, no overrun, termination, error position inside the text); "
+             "every strip input, every enumerated tree (real toString then real parse), one shortest input per acceptor transition, "
+             "depth-1000 nestings and seeded random/truncated/mutated texts run on the real code from exact-size heap copies under "
+             "ASan with a watchdog; TLC validates every logged outcome against the Layer-1 trace specs.",
+        ref="5/C15", technique="TLA+ model checking (TLC) + transition-covering input generation + TLC trace validation; ASan for the bounds clause",
+        note="Which texts are accepted is Layer 2 only (drift); doubles/unsigned not in the round trip; alphabets of 8-13 symbols exhaustively, arbitrary bytes only sampled."),
+    "C16": dict(
+        text="TLC checks XmlSyntax.tla (element trees, round-trip), XmlValue.tla (value semantics / copy independence of three "
+             "Xml::Variant slots) and XmlLexImpl.tla (micro-step acceptor of Xml.cpp incl. comment skipping, PI loop, content loop "
+             "with its rewind, entity unescape; invariants cursor inside, progress per content-loop pass, termination, error "
+             "position inside the text); every enumerated tree (real toString then parse, also re-rendered with comments/PIs/"
+             "entities), one shortest input per acceptor transition, depth-1000 nestings, random texts and every edge of the "
+             "XmlValue graph run on the real code under ASan/UBSan with a watchdog; TLC validates every logged outcome.",
+        ref="5/C16", technique="TLA+ model checking (TLC) + transition-covering input generation + state-graph replay + TLC trace validation",
+        note="Accepted language is Layer 2 only; a comment directly after a name without white space is not demanded; 7-12 symbol alphabets exhaustively."),
 }
 
 PENDING_REASON = "check not built yet in this revision of /verif (planned: see DESIGN.md section 5); not claimed until its machinery runs"
